@@ -354,5 +354,53 @@ def r6_pointer_index(chk: Check) -> None:
             chk.violation("C10.R6", fn, construct, f"`int({tok})` is applied to whatever the pointer says: `-1` selects the last array element, `+1` / ` 1` / `01` / `1_0` are accepted too - a link value that RFC 6901 makes unresolvable is evaluated and sent", fn.loc(x))
 
 
+def r7_responses_values_total(chk: Check) -> None:
+    chk.rule("C10.R7", "TOTAL(values of a `responses` object): besides Response Objects a `responses` mapping may carry `x-...` extension entries whose value is ANY JSON (string, bool, null, list); every loop that walks over the items / values of `responses` and then treats the value as a mapping (`\"$ref\" in v`, `v.get(...)`, `resolve_all(v)`) tests `isinstance(v, dict)` first - otherwise link collection raises AttributeError / TypeError: `as_state_machine()` fails, and the links statistic drops to 0/0 so the stateful phase is skipped as `not applicable`", floor=2)
+    P = chk.project
+    n = 0
+    for fn in P.all_functions():
+        if isinstance(fn.node, ast.Lambda) or not fn.module.relpath.startswith("specs/openapi/"):
+            continue
+        for lp in (x for x in walk_body(fn.node) if isinstance(x, ast.For)):
+            m = pmatch("$X.items()", lp.iter) or pmatch("$X.values()", lp.iter)
+            if m is None or "responses" not in unparse(m["X"], 200):
+                continue
+            if isinstance(lp.target, ast.Tuple) and len(lp.target.elts) == 2 and isinstance(lp.target.elts[1], ast.Name):
+                v = lp.target.elts[1].id
+            elif isinstance(lp.target, ast.Name) and pmatch("$X.values()", lp.iter) is not None:
+                v = lp.target.id
+            else:
+                continue
+            g = cfg_of(fn)
+            uses = []
+            for x in (y for s_ in lp.body for y in ast.walk(s_)):
+                if isinstance(x, ast.Compare) and isinstance(x.ops[0], (ast.In, ast.NotIn)) and isinstance(x.comparators[0], ast.Name) and x.comparators[0].id == v:
+                    uses.append(x)
+                elif isinstance(x, ast.Call) and isinstance(x.func, ast.Attribute) and isinstance(x.func.value, ast.Name) and x.func.value.id == v and x.func.attr in ("get", "items", "keys", "values"):
+                    uses.append(x)
+                elif isinstance(x, ast.Call) and last_attr(x) in ("resolve_all", "resolve_in_scope") and x.args and isinstance(x.args[0], ast.Name) and x.args[0].id == v:
+                    uses.append(x)
+                elif isinstance(x, ast.Subscript) and isinstance(x.value, ast.Name) and x.value.id == v and isinstance(x.ctx, ast.Load):
+                    uses.append(x)
+            if not uses:
+                continue
+            n += 1
+            first = min(uses, key=lambda u: (u.lineno, u.col_offset))
+            facts = known_conditions(g, g.stmt_nodes_containing(first))
+            guarded = facts.get(f"isinstance({v}, dict)") is True or any(k.startswith(f"isinstance({v}, ") and val for k, val in facts.items())
+            # an isinstance test inside the same boolean expression (`isinstance(v, dict) and "$ref" in v`) counts as well
+            st_ = stmt_of(first)
+            same_test = any(isinstance(t, ast.If) and f"isinstance({v}, dict)" in unparse(t.test, 300) and is_within(first, t.test) for t in [a for a in __import__("sa.loader", fromlist=["ancestors"]).ancestors(first)] if isinstance(t, ast.If))
+            construct = f"{fn.name}: values of `responses` are used as mappings only after an isinstance test"
+            if guarded or same_test:
+                chk.ok("C10.R7", fn, construct, "", fn.loc(first))
+            else:
+                chk.violation("C10.R7", fn, construct,
+                              f"`{unparse(first, 40)}` is applied to every value of `responses`; for `x-internal: \"note\"` (or `true`, `null`, a list) it raises TypeError / AttributeError - link collection and the links statistic fail for the whole operation",
+                              fn.loc(first))
+    if n < 2:
+        chk.undecided("C10.R7", "<discovery>", f"loops={n}", "fewer loops over `responses` than confirmed by hand")
+
+
 def rules(tier: str) -> list:  # type: ignore[type-arg]
-    return [r1_exhaustive, r2_resolvability, r3_errors, r4_status_matching, r5_evaluate, rfwd_forwarding, r6_pointer_index]
+    return [r1_exhaustive, r2_resolvability, r3_errors, r4_status_matching, r5_evaluate, rfwd_forwarding, r6_pointer_index, r7_responses_values_total]
